@@ -37,9 +37,9 @@ class World:
             self.mirs[n] = Mir(f'{MIRDIR}/{n}.mir')
         return self.mirs[n]
 
-    def fn(self, name_re, crate='marginfi'):
+    def fn(self, name_re, crate='marginfi', pred=None):
         m = self.load(crate)
-        c = [f for n, f in m.fns.items() if re.search(name_re, n)]
+        c = [f for n, f in m.fns.items() if re.search(name_re, n) and (pred is None or pred(f))]
         if len(c) != 1:
             raise LookupError(f'function pattern {name_re!r} matches {len(c)} MIR bodies in {crate}: {[f.name for f in c][:6]}')
         return c[0]
